@@ -276,7 +276,7 @@ func c11(r *core.Run) {
 			for _, b := range cr.Blocks {
 				if iff, ok := b.Instrs[len(b.Instrs)-1].(*ssa.If); ok {
 					ci := core.Cond(iff.Cond)
-					if ci.Kind == "constcmp" && ci.HasFld && ci.Field == idF && ci.Const != nil && ci.Const.ExactString() == `""` {
+					if ci.Kind == "constcmp" && ci.Const != nil && ci.Const.ExactString() == `""` && ((ci.HasFld && ci.Field == idF) || loadsFieldThroughCell(ci.X, idF)) {
 						guards = append(guards, iff)
 					}
 				}
@@ -383,7 +383,47 @@ func c11(r *core.Run) {
 				}
 			}
 		}
+		// the veto loop may be written out in the closure: the load of the BeforeChange listener slice
+		// stands for the veto, and every listener call's error must leave the closure
+		inlineVeto := false
+		if veto == nil && wr != nil {
+			bf := listenerFieldOf(p, "store/badgerstore", "Store", "BeforeChange")
+			var load ssa.Instruction
+			errOut := true
+			nHook := 0
+			for _, b := range cl.Blocks {
+				for _, in := range b.Instrs {
+					if u, ok := in.(*ssa.UnOp); ok {
+						if f, ok := core.LoadedField(u); ok && f == bf && bf.Name != "" && load == nil {
+							load = u
+						}
+					}
+				}
+			}
+			for _, c := range core.Calls(cl) {
+				if !core.IsDynamic(c) {
+					continue
+				}
+				if u, ok := c.Common().Value.(*ssa.UnOp); ok {
+					if ia, ok := u.X.(*ssa.IndexAddr); ok {
+						if f, ok := core.LoadedField(ia.X); ok && f == bf {
+							nHook++
+							if c.Value() == nil || !errorReachesReturn(c.Value(), cl) {
+								errOut = false
+							}
+						}
+					}
+				}
+			}
+			if load != nil && nHook > 0 && errOut && core.Dominates(load, wr) {
+				inlineVeto = true
+			}
+		}
 		good := veto != nil && wr != nil && core.Dominates(veto, wr)
+		if inlineVeto {
+			r.OK("C2", core.FuncName(cl), "veto-before-write-in-closure", p.InstrPos(wr), "the BeforeChange listeners are called in the closure before the write and an error from any of them leaves the closure")
+			continue
+		}
 		if good {
 			// the write is on the err==nil edge of the veto
 			good = false
@@ -408,17 +448,20 @@ func c11(r *core.Run) {
 func c11Callbacks(r *core.Run, rel, name string, m *ssa.Function, idF core.Field) {
 	p := r.P
 	fan := fanoutFuncs(p, rel, "OnChange")
-	if len(fan) == 0 {
-		r.Unres("C1", core.FuncName(m), "no function fans out to the listeners registered with Store.OnChange")
-		return
-	}
+	lf := listenerFieldOf(p, rel, "Store", "OnChange")
+	// a fan-out is a call of a fan-out function, or - when the loop over the listeners is written
+	// out in the mutation method - the load of the listener slice that the loop ranges over
 	isFanout := func(in ssa.Instruction) bool {
-		c, ok := in.(*ssa.Call)
-		if !ok {
-			return false
+		if c, ok := in.(*ssa.Call); ok {
+			cal := c.Common().StaticCallee()
+			return cal != nil && fan[cal] && cal != m
 		}
-		cal := c.Common().StaticCallee()
-		return cal != nil && fan[cal]
+		if u, ok := in.(*ssa.UnOp); ok && core.Outermost(u.Parent()) == m {
+			if f, ok := core.LoadedField(u); ok && f == lf && lf.Name != "" {
+				return true
+			}
+		}
+		return false
 	}
 	// no fan-out inside closures of the method (would run inside the uncommitted transaction)
 	for _, a := range m.AnonFuncs {
@@ -460,10 +503,32 @@ func c11Callbacks(r *core.Run, rel, name string, m *ssa.Function, idF core.Field
 		}
 	}
 	// fan-out call: dominated by an err==nil edge; arguments
+	type fanSite struct {
+		at   ssa.Instruction
+		args []ssa.Value // id, before, after
+	}
+	var fsites []fanSite
 	for _, c := range core.Calls(m) {
-		if !isFanout(c) {
+		if isFanout(c) {
+			fsites = append(fsites, fanSite{c, c.Common().Args[1:]})
 			continue
 		}
+		// written-out loop: the dynamic call of an element of the listener slice
+		if core.IsDynamic(c) {
+			if u, ok := c.Common().Value.(*ssa.UnOp); ok {
+				if ia, ok := u.X.(*ssa.IndexAddr); ok {
+					if f, ok := core.LoadedField(ia.X); ok && f == lf && lf.Name != "" {
+						fsites = append(fsites, fanSite{c, c.Common().Args})
+					}
+				}
+			}
+		}
+	}
+	if len(fsites) == 0 {
+		r.Bad("C1", core.FuncName(m), "has-change-fanout", p.Pos(m.Pos()), "the mutation never calls the OnChange listeners")
+	}
+	for _, fs := range fsites {
+		c := fs.at
 		okEdge := false
 		for _, ed := range dominatingEdges(c) {
 			ci := core.Cond(ed.If.Cond)
@@ -478,12 +543,20 @@ func c11Callbacks(r *core.Run, rel, name string, m *ssa.Function, idF core.Field
 			}
 		}
 		r.Check(okEdge, "C1", core.FuncName(m), "fanout-on-success-edge", p.InstrPos(c), "callbacks run only after the mutation's error was observed nil", "callbacks are not dominated by the success edge of the mutation")
-		args := c.Common().Args // recv, id, before, after
+		if len(fs.args) < 3 {
+			r.Bad("C1", core.FuncName(m), "fanout-args", p.InstrPos(c), "the listeners are not called with (id, before, after)")
+			continue
+		}
+		args := append([]ssa.Value{nil}, fs.args...) // (recv), id, before, after
 		// the transaction's id, or (mock store, empty id) the id generated through the store's hook
 		idok := true
 		nID := 0
 		for _, lf := range valueLeaves(args[1], nil, 0) {
 			if f, ok := core.LoadedField(lf.V); ok && f == idF {
+				nID++
+				continue
+			}
+			if loadsFieldThroughCell(lf.V, idF) {
 				nID++
 				continue
 			}
@@ -818,4 +891,44 @@ func c11CacheCoherence(r *core.Run, rule, rel string) {
 		r.Check(len(missing) == 0, rule, short+".readTxn", "cache("+f.Name+")-refreshed-by-every-mutation", "-", "every mutation persistently stores the value it leaves behind into the cache",
 			fmt.Sprintf("the cached value is persistently written by %v but %v do not store the value they leave behind (new value / nil) into it: after a mutation in the same write transaction Value() and the next mutation's before-value are stale (own writes invisible, not-found lost, wrong index deltas and change notifications)", core.SortedKeys(live), missing))
 	}
+}
+
+// loadsFieldThroughCell: v is a load of a local / captured variable whose
+// every assigned value is a load of field f (id := wt.id ... use of id).
+func loadsFieldThroughCell(v ssa.Value, f core.Field) bool {
+	u, ok := v.(*ssa.UnOp)
+	if !ok || u.Op != token.MUL {
+		return false
+	}
+	cell := u.X
+	if fv, ok := cell.(*ssa.FreeVar); ok {
+		cell = core.BindingOf(fv)
+	}
+	al, ok := cell.(*ssa.Alloc)
+	if !ok || al.Referrers() == nil {
+		return false
+	}
+	n := 0
+	for _, fn := range withAnon(core.Outermost(al.Parent())) {
+		for _, b := range fn.Blocks {
+			for _, in := range b.Instrs {
+				st, ok := in.(*ssa.Store)
+				if !ok {
+					continue
+				}
+				tgt := st.Addr
+				if fv, ok := tgt.(*ssa.FreeVar); ok {
+					tgt = core.BindingOf(fv)
+				}
+				if tgt != ssa.Value(al) {
+					continue
+				}
+				if g, ok := core.LoadedField(st.Val); !ok || g != f {
+					return false
+				}
+				n++
+			}
+		}
+	}
+	return n > 0
 }
